@@ -96,6 +96,25 @@ func worker() {
 		defer pprof.StopCPUProfile()
 	}
 	t0 := time.Now()
+	// watchdog: an execution that has not returned for two minutes never will
+	go func() {
+		for {
+			time.Sleep(2 * time.Second)
+			if core.SinceTick() > 120*time.Second {
+				msg := fmt.Sprintf("an execution did not return within 120 s (a start costs about a millisecond); case: %s", core.CurrentCase())
+				if d.HangIsViolation {
+					c.Report(prop+"/hang/"+core.Hash(core.CurrentCase()), "non-termination", msg, json.RawMessage(core.CurrentCase()))
+					c.S.Exhaustive = false
+					c.S.Caps = append(c.S.Caps, "worker stopped at a non-terminating execution")
+				} else {
+					c.S.EngineError = msg
+				}
+				c.S.WallS = time.Since(t0).Seconds()
+				c.Emit()
+				os.Exit(0)
+			}
+		}
+	}()
 	func() {
 		defer func() {
 			if r := recover(); r != nil {
